@@ -119,6 +119,15 @@ class C01(Prop):
             case = {"k": "codec", "bulk": rng.random() < 0.7, "events": evs, "off": 0}
             for be in storelib.BACKENDS:
                 out.append(("codec-json-types", {**case, "backend": be}))
+        # texts that JSON carries only escaped (half of a surrogate pair: a title cut in the middle of an emoji; NUL) or that some
+        # tools take for line ends; the model's strings are UTF-8, so these are judged on the real stores alone
+        ODD = ["\ud83d", "half \ude00 pair", "nul\x00char", "line\u2028sep\u2029", "\x7f\x80\ufffe", "caf\u00e9 \U0001f600"]
+        for k in range(ctx.pick(12, 120)):
+            txt = ODD[k % len(ODD)]
+            evs = [[None, T0 + j * 1000, 1000, json.dumps({"title": txt, txt: j, "nested": {"l": [txt]}}, ensure_ascii=True)] for j in range(rng.choice([1, 3]))]
+            case = {"k": "codec", "bulk": k % 2 == 0, "events": evs, "off": 0, "no_model": True}
+            for be in storelib.BACKENDS:
+                out.append(("codec-odd-text", {**case, "backend": be}))
         # directed at the region the float-encoding proof has to exclude: instants in 2038..2041 whose
         # double encoding (T / 1e6) * 1e6 is off by a quarter microsecond, ending beyond 2^51 µs
         for _ in range(ctx.pick(150, 5000)):
@@ -362,6 +371,8 @@ class C01(Prop):
             return storelib.model_lines(case["backend"], io["resolved"])[0]
         if case["k"] == "own":
             return self._own_lines(case, io) if case["backend"] == "memory" else []
+        if case.get("no_model"):
+            return []
         pre = f"store {case['backend']} "
         m = {"type": "t", "client": "cl", "hostname": "h", "created_us": T0}
         L = ["store reset", pre + f"create {hx('c')} {storelib.p_meta(m)}"]
@@ -441,6 +452,8 @@ class C01(Prop):
             return storelib.model_out(case["backend"], io["resolved"], answers, idx)
         if case["k"] == "own":
             return self._own_out(case, answers) if case["backend"] == "memory" else None
+        if case.get("no_model"):
+            return None
         ids = []
         if not case["bulk"]:
             for a in answers[2:-1]:
@@ -473,6 +486,8 @@ class C01(Prop):
                 "all_held": answer(tail[3]).tok() == "1"}
 
     def same(self, case, io, mo):
+        if case.get("no_model"):
+            return True
         if case["k"] == "hist":
             return storelib.same_history(case["backend"], io, mo)
         if case["k"] == "own":
